@@ -7,3 +7,14 @@ def task(a, b, lat, x):
     if lat:
         time.sleep(((x * 7919 + lat) % 5) * 0.002)
     return a * x * x + b
+
+
+def task_exn(a, b, p, r, q, s, lat, x):
+    # raises for some items: ValueError when x % p == r, KeyError when x % q == s (python's %: sign of the modulus)
+    if lat:
+        time.sleep(((x * 7919 + lat) % 5) * 0.002)
+    if x % p == r:
+        raise ValueError("item %d" % x)
+    if x % q == s:
+        raise KeyError(x)
+    return a * x * x + b
